@@ -128,12 +128,23 @@ static void mode_create(void){
   vc_rng r; vc_case_rng(&r,28); int err;
   static const int fsv[]={0,-1,4000,8000,11025,12000,16000,22050,24000,32000,44100,48000,48001,96000,INT_MAX}; static const int chv[]={-1,0,1,2,3,255,256}; static const int apv[]={0,2047,2048,2049,2050,2051,2052,-1000};
   int Fs=VC_PICK(&r,fsv), ch=VC_PICK(&r,chv), app=VC_PICK(&r,apv); int fsok=(Fs==8000||Fs==12000||Fs==16000||Fs==24000||Fs==48000), chok=(ch==1||ch==2), apok=(app==2048||app==2049||app==2051);
-  fail_at=-2;   /* accounting off */
+  fail_at=-1; live=0;   /* allocation accounting on, no faults: a rejected creation must leave no allocation behind */
+#define LEAKCHK(what) do{ if(live!=0){ vc_viol("create:leak","%s (Fs=%d ch=%d app=%d): %ld allocation(s) still live after the call returned",what,Fs,ch,app,live); live=0; } else vc_count("create_no_leak_checked",1); }while(0)
   { err=12345; OpusEncoder *e=opus_encoder_create(Fs,ch,app,&err); int ok=fsok&&chok&&apok; if(ok){ if(!e||err!=OPUS_OK) vc_viol("create:legal-rejected","opus_encoder_create(%d,%d,%d) failed %d",Fs,ch,app,err); } else if(e||err!=OPUS_BAD_ARG) vc_viol("create:illegal-accepted","opus_encoder_create(%d,%d,%d) returned %p err %d",Fs,ch,app,(void*)e,err); if(e) opus_encoder_destroy(e); vc_count("create_calls",1);
-    if(chok){ int sz=opus_encoder_get_size(ch); void *m=malloc(sz); int rc=opus_encoder_init((OpusEncoder*)m,Fs,ch,app); if(ok?rc!=OPUS_OK:rc!=OPUS_BAD_ARG) vc_viol("create:init","opus_encoder_init(%d,%d,%d) returned %d",Fs,ch,app,rc); free(m); } else if(opus_encoder_get_size(ch)!=0) vc_viol("create:size","opus_encoder_get_size(%d) nonzero",ch); }
-  { err=12345; OpusDecoder *d=opus_decoder_create(Fs,ch,&err); int ok=fsok&&chok; if(ok){ if(!d||err!=OPUS_OK) vc_viol("create:legal-rejected","opus_decoder_create(%d,%d) failed %d",Fs,ch,err); } else if(d||err!=OPUS_BAD_ARG) vc_viol("create:illegal-accepted","opus_decoder_create(%d,%d) returned %p err %d",Fs,ch,(void*)d,err); if(d) opus_decoder_destroy(d); if(!chok&&opus_decoder_get_size(ch)!=0) vc_viol("create:size","opus_decoder_get_size(%d) nonzero",ch); }
-  { unsigned char map[2]={0,1}; err=12345; OpusMSEncoder *m=opus_multistream_encoder_create(Fs,chok?ch:2,1,chok?ch-1:1,map,app,&err); int ok=fsok&&apok; if(ok){ if(!m||err!=OPUS_OK) vc_viol("create:legal-rejected","multistream encoder (%d,%d) failed %d",Fs,app,err); } else if(m||err==OPUS_OK) vc_viol("create:illegal-accepted","multistream encoder create(Fs=%d,app=%d) accepted",Fs,app); if(m) opus_multistream_encoder_destroy(m);
-    err=12345; OpusMSDecoder *d=opus_multistream_decoder_create(Fs,2,1,1,map,&err); if(fsok?(!d||err!=OPUS_OK):(d||err==OPUS_OK)) vc_viol(fsok?"create:legal-rejected":"create:illegal-accepted","multistream decoder create(Fs=%d) -> %p err %d",Fs,(void*)d,err); if(d) opus_multistream_decoder_destroy(d); }
+    if(chok){ int sz=opus_encoder_get_size(ch); void *m=malloc(sz); int rc=opus_encoder_init((OpusEncoder*)m,Fs,ch,app); if(ok?rc!=OPUS_OK:rc!=OPUS_BAD_ARG) vc_viol("create:init","opus_encoder_init(%d,%d,%d) returned %d",Fs,ch,app,rc); free(m); } else if(opus_encoder_get_size(ch)!=0) vc_viol("create:size","opus_encoder_get_size(%d) nonzero",ch); LEAKCHK("opus_encoder_create/init"); }
+  { err=12345; OpusDecoder *d=opus_decoder_create(Fs,ch,&err); int ok=fsok&&chok; if(ok){ if(!d||err!=OPUS_OK) vc_viol("create:legal-rejected","opus_decoder_create(%d,%d) failed %d",Fs,ch,err); } else if(d||err!=OPUS_BAD_ARG) vc_viol("create:illegal-accepted","opus_decoder_create(%d,%d) returned %p err %d",Fs,ch,(void*)d,err); if(d) opus_decoder_destroy(d); if(!chok&&opus_decoder_get_size(ch)!=0) vc_viol("create:size","opus_decoder_get_size(%d) nonzero",ch); LEAKCHK("opus_decoder_create"); }
+  { unsigned char map[2]={0,1}; err=12345; OpusMSEncoder *m=opus_multistream_encoder_create(Fs,chok?ch:2,1,chok?ch-1:1,map,app,&err); int ok=fsok&&apok; if(ok){ if(!m||err!=OPUS_OK) vc_viol("create:legal-rejected","multistream encoder (%d,%d) failed %d",Fs,app,err); } else if(m||err==OPUS_OK) vc_viol("create:illegal-accepted","multistream encoder create(Fs=%d,app=%d) accepted",Fs,app); if(m) opus_multistream_encoder_destroy(m); LEAKCHK("opus_multistream_encoder_create");
+    err=12345; OpusMSDecoder *d=opus_multistream_decoder_create(Fs,2,1,1,map,&err); if(fsok?(!d||err!=OPUS_OK):(d||err==OPUS_OK)) vc_viol(fsok?"create:legal-rejected":"create:illegal-accepted","multistream decoder create(Fs=%d) -> %p err %d",Fs,(void*)d,err); if(d) opus_multistream_decoder_destroy(d); LEAKCHK("opus_multistream_decoder_create"); }
+  /* creations that pass the count checks and are refused later (bad mapping entry, a stream no channel feeds, bad family / channel count / rate / application) */
+  { int gFs=vc_chance(&r,1,3)?Fs:VC_PICK(&r,vk_rates); int gap=vc_chance(&r,1,3)?app:OPUS_APPLICATION_AUDIO; int gok=(gFs==8000||gFs==12000||gFs==16000||gFs==24000||gFs==48000)&&(gap==2048||gap==2049||gap==2051); int S,C; unsigned char map[255]; int kind=vc_below(&r,6); void *o=NULL; err=12345; int expect_ok=0; const char *what="";
+    if(kind==0){ int n=vc_range(&r,1,6), st=vc_range(&r,1,4), cp=vc_range(&r,0,st); int bad=0; for(int i=0;i<n;i++){ map[i]=(unsigned char)(vc_chance(&r,1,5)?vc_range(&r,st+cp,254):vc_below(&r,st+cp)); if(map[i]>=st+cp&&map[i]!=255) bad=1; } int fed[16]={0}; for(int i=0;i<n;i++) if(map[i]<st+cp) fed[map[i]]=1; for(int q=0;q<st+cp;q++) if(!fed[q]) bad=1; if(st+cp>n) bad=1; what="opus_multistream_encoder_create (mapping)"; o=opus_multistream_encoder_create(gFs,n,st,cp,map,gap,&err); expect_ok=gok&&!bad; if(o&&!expect_ok){ vc_viol("create:illegal-accepted","multistream encoder with an illegal layout/rate/application accepted (n=%d st=%d cp=%d)",n,st,cp); } if(o) opus_multistream_encoder_destroy((OpusMSEncoder*)o); }
+    else if(kind==1){ int n=vc_range(&r,1,6), st=vc_range(&r,1,4), cp=vc_range(&r,0,st); int bad=0; for(int i=0;i<n;i++){ map[i]=(unsigned char)(vc_chance(&r,1,5)?vc_range(&r,st+cp,255):vc_below(&r,st+cp)); if(map[i]>=st+cp&&map[i]!=255) bad=1; } what="opus_multistream_decoder_create (mapping)"; o=opus_multistream_decoder_create(gFs,n,st,cp,map,&err); int fok=(gFs==8000||gFs==12000||gFs==16000||gFs==24000||gFs==48000); if(o&&(bad||!fok)) vc_viol("create:illegal-accepted","multistream decoder with an illegal mapping/rate accepted"); if(!o&&!bad&&fok) vc_viol("create:legal-rejected","multistream decoder n=%d st=%d cp=%d err %d",n,st,cp,err); if(o) opus_multistream_decoder_destroy((OpusMSDecoder*)o); }
+    else if(kind==2){ static const int fam[]={0,1,2,3,255,4,254,-1}; int f=VC_PICK(&r,fam); int n=vc_range(&r,0,12); what="opus_multistream_surround_encoder_create"; o=opus_multistream_surround_encoder_create(gFs,n,f,&S,&C,map,gap,&err); if(o) opus_multistream_encoder_destroy((OpusMSEncoder*)o); }
+    else if(kind==3){ int n=vc_range(&r,0,40); int f=vc_chance(&r,1,4)?vc_range(&r,0,4):3; what="opus_projection_ambisonics_encoder_create"; o=opus_projection_ambisonics_encoder_create(gFs,n,f,&S,&C,gap,&err); if(o) opus_projection_encoder_destroy((OpusProjectionEncoder*)o); }
+    else if(kind==4){ int n=vc_range(&r,1,8), st=vc_range(&r,1,5), cp=vc_range(&r,0,st); int sz=vc_chance(&r,1,2)?n*(st+cp)*2:vc_range(&r,0,200); static unsigned char mtx[400]; for(int i=0;i<400;i++) mtx[i]=(unsigned char)vc_u32(&r); what="opus_projection_decoder_create"; o=opus_projection_decoder_create(gFs,n,st,cp,mtx,sz>400?400:sz,&err); if(o) opus_projection_decoder_destroy((OpusProjectionDecoder*)o); }
+    else { int n=vc_range(&r,1,3); what="opus_encoder_create"; o=opus_encoder_create(gFs,n,gap,&err); if(o) opus_encoder_destroy((OpusEncoder*)o); }
+    if(!o&&(err==OPUS_OK||err==12345)) vc_viol("create:no-error-code","%s returned NULL without an error code (err=%d)",what,err); vc_count(o?"create_variants_accepted":"create_variants_rejected",1); vc_count("create_calls",1); LEAKCHK(what); }
+  fail_at=-2;
   /* allocation faults: fail the k-th allocation for every k until creation succeeds */
   { int kind=vc_below(&r,6); int gFs=VC_PICK(&r,vk_rates); int gch=1+vc_below(&r,2); unsigned char map[8]={0,1,2,3,4,5,6,7}; int S,C;
     for(long k=0;k<40;k++){ live=0; nalloc=0; fail_at=k; err=12345; void *obj=NULL;
